@@ -161,6 +161,7 @@ fn worker(args: &[String]) -> i32 {
     let mut strategies: BTreeMap<String, u64> = BTreeMap::new();
     let mut counters: BTreeMap<String, u64> = BTreeMap::new();
     let mut sim_time_ns: u128 = 0;
+    let mut max_steps = 0u64;
     let mut samples: Vec<Value> = vec![];
     let mut violations: Vec<Value> = vec![];
     let mut known_hits: BTreeMap<String, u64> = BTreeMap::new();
@@ -198,6 +199,7 @@ fn worker(args: &[String]) -> i32 {
             *counters.entry(k.to_string()).or_insert(0) += v;
         }
         sim_time_ns += rep.sim_time_ns;
+        max_steps = max_steps.max(rep.stats.steps);
         if samples.len() < 2 && rep.nontrivial {
             samples.push(json!({
                 "index": index,
@@ -252,7 +254,7 @@ fn worker(args: &[String]) -> i32 {
         "runs": runs, "wall_s": wall,
         "fired": map_json(&fired), "probes": map_json(&probes), "outcome_categories": map_json(&cats), "op_kinds": map_json(&op_kinds),
         "strategies": map_json(&strategies), "counters": map_json(&counters),
-        "sim_time_ns": sim_time_ns.to_string(),
+        "sim_time_ns": sim_time_ns.to_string(), "max_steps_in_a_run": max_steps,
         "samples": samples, "violations": violations, "unlisted_violations": unlisted,
         "known_hits": map_json(&known_hits),
     });
